@@ -216,8 +216,19 @@ def _apply_contract(eng, c, env, cl):
     if not any(t == "result" for t, _ in effs):
         result = make_result(eng, kind, env)
     post_env["result"] = result
-    for e in c.ensures:
-        eng.assume(_ens(eng, e, post_env, fr, snap))
+    # the callee may have warned "cannot be satisfied": a fresh symbolic flag, visible to the caller's own contract
+    eng.nfresh += 1
+    w = z3.Bool("callee_warned_unsat!%d" % eng.nfresh)
+    if not hasattr(eng, "apply_w_stack") or eng.apply_w_stack is None:
+        eng.apply_w_stack = []
+    eng.apply_w_stack.append(w)
+    try:
+        for e in c.ensures:
+            eng.assume(_ens(eng, e, post_env, fr, snap))
+    finally:
+        eng.apply_w_stack.pop()
+    if any("warned_unsat" in e for e in c.ensures):
+        eng.warned.append(SV(w, "bool"))
     return result
 
 
